@@ -192,7 +192,8 @@ def vpar_step_ref(f, vpts, c, dt, r, mode, ref, consts):
         else:
             raise ValueError(mode)
     smax = float(np.abs(coeffs).max()) * 2 * (ref.p + 1) / ref.min_span     # bound of |S'|
-    return out, {"cond": cond, "outside": outside, "feet": feet, "foot_used": foot_used, "slope_bound": smax}
+    return out, {"cond": cond, "outside": outside, "feet": feet, "foot_used": foot_used, "slope_bound": smax,
+                 "coeffs": coeffs}
 
 
 # ----------------------------------------------------------------------------------------
